@@ -3,7 +3,7 @@ import Pyc.Model.Emit
 open Pyc.Emit Pyc.Proto
 
 /-- requests (fields separated by ` ; `, pairs written `tag:value`, `_` = None):
-    `cv <tag> <value|_> ; <kids>`            → _correctValInNode
+    `cv <tag> <value|_> <later tags…> ; <kids>` → _correctValInNode (later = tags after <tag> in the schema order given)
     `redir <vertId> <vertRef> ; <sem:src>…`  → Geometry.save redirection
     `emit <supported…> ; <p:v|p:_ …> ; <kids>` → Effect.save parameter loop -/
 def parsePairs (s : String) : Option (List (String × String)) :=
@@ -15,9 +15,9 @@ def showPairs (l : List (String × String)) : String := joinWith " " (l.map (fun
 
 def handle (_ : Unit) (line : String) : Unit × String :=
   match (line.trimAscii.toString.splitOn ";").map words, line.trimAscii.toString.splitOn ";" with
-  | [["cv", k, v], _], [_, kids] =>
+  | [("cv" :: k :: v :: later), _], [_, kids] =>
     match parsePairs kids with
-    | some ks => ((), showPairs (correctVal ks k (if v == "_" then none else some v)))
+    | some ks => ((), showPairs (correctVal ks k (if v == "_" then none else some v) later))
     | none => ((), "bad-op")
   | [["redir", vid, vref], _], [_, ins] =>
     match parsePairs ins with
